@@ -94,6 +94,8 @@ pub struct CaseCx {
   pub distinct: HashSet<u64>,
   pub samples: Vec<Value>,
   pub notes: BTreeSet<String>,
+  /// violations recorded by this context and its scratch copies (lets a long exploration stop early)
+  pub viol_count: std::sync::Arc<AtomicUsize>,
 }
 impl CaseCx {
   pub fn new(tier: Tier, seed: u64, check: &'static str, case_key: u64) -> Self {
@@ -108,9 +110,15 @@ impl CaseCx {
       distinct: HashSet::new(),
       samples: vec![],
       notes: BTreeSet::new(),
+      viol_count: std::sync::Arc::new(AtomicUsize::new(0)),
     }
   }
+  /// true once enough counterexamples were recorded; explorations stop expanding then
+  pub fn should_stop(&self) -> bool {
+    self.viol_count.load(Ordering::Relaxed) >= 12
+  }
   pub fn viol(&mut self, key: impl Into<String>, what: impl Into<String>, detail: Value) {
+    self.viol_count.fetch_add(1, Ordering::Relaxed);
     if self.viols.len() < 64 {
       self.viols.push(Viol { key: key.into(), what: what.into(), detail });
     }
@@ -145,7 +153,9 @@ impl CaseCx {
   }
   /// a scratch context with the same identity (for work done on other threads inside this case)
   pub fn scratch(&self) -> CaseCx {
-    CaseCx::new(self.tier, self.seed, self.check, self.case_key)
+    let mut c = CaseCx::new(self.tier, self.seed, self.check, self.case_key);
+    c.viol_count = self.viol_count.clone();
+    c
   }
   pub fn absorb(&mut self, other: CaseCx) {
     for v in other.viols {
@@ -199,7 +209,7 @@ struct Agg {
   distinct: HashSet<u64>,
   samples: Vec<Value>,
   notes: BTreeSet<String>,
-  viols: Vec<(String, String, Value, &'static str, Value)>, // key, what, detail, check, case
+  viols: Vec<(String, String, Value, &'static str, Value, std::sync::Arc<Vec<Value>>)>, // key, what, detail, check, case, earlier cases of the same worker thread
   harness_errors: Vec<String>,
   cases_run: u64,
   cases_capped: u64,
@@ -231,6 +241,7 @@ fn run_check(spec: &PropSpec, ck: &Check, opt: &Options, deadline: Option<Instan
     for _ in 0..nthreads {
       s.spawn(|| {
         let mut local = Agg::default();
+        let mut history: Vec<Value> = vec![];
         loop {
           let i = next.fetch_add(1, Ordering::Relaxed);
           if i >= cases.len() {
@@ -264,10 +275,21 @@ fn run_check(spec: &PropSpec, ck: &Check, opt: &Options, deadline: Option<Instan
             }
           }
           local.notes.extend(cx.notes);
-          for v in cx.viols {
-            if local.viols.len() < 256 {
-              local.viols.push((v.key, v.what, v.detail, ck.name, case.clone()));
+          if !cx.viols.is_empty() {
+            let hist = std::sync::Arc::new(history.clone());
+            for v in cx.viols {
+              if local.viols.len() < 256 {
+                local.viols.push((v.key, v.what, v.detail, ck.name, case.clone(), hist.clone()));
+              }
             }
+          }
+          if history.len() < 4096 {
+            history.push(case.clone());
+          }
+          // enough counterexamples: the remaining cases of this check are skipped (reported, not exhaustive)
+          if local.viols.len() >= 64 {
+            local.cases_capped += (cases.len().saturating_sub(next.swap(cases.len(), Ordering::Relaxed))) as u64;
+            break;
           }
         }
         let mut a = agg.lock().unwrap();
@@ -327,6 +349,21 @@ fn rerun_case(spec: &PropSpec, check: &str, case: &Value, opt: &Options) -> Resu
   Ok(cx.viols.into_iter().map(|v| (v.key, v.what)).collect())
 }
 
+/// Re-run a case after the cases that preceded it on its worker thread, on a fresh thread (fresh
+/// thread-locals): reproduces violations that depend on state the code under test carries between calls.
+fn rerun_with_history(spec: &PropSpec, check: &str, history: &[Value], case: &Value, opt: &Options) -> Result<Vec<(String, String)>, String> {
+  std::thread::scope(|s| {
+    s.spawn(|| {
+      for h in history {
+        let _ = rerun_case(spec, check, h, opt);
+      }
+      rerun_case(spec, check, case, opt)
+    })
+    .join()
+    .unwrap_or_else(|_| Err("replay thread panicked".into()))
+  })
+}
+
 pub fn run_property(spec: PropSpec, opt: Options) -> i32 {
   install_silent_panic_hook();
   let known = load_known(&opt.verif_dir, spec.id);
@@ -345,7 +382,9 @@ pub fn run_property(spec: PropSpec, opt: Options) -> i32 {
     let seed = v["seed"].as_u64().unwrap_or(opt.seed);
     let tier = if v["tier"].as_str() == Some("thorough") { Tier::Thorough } else { Tier::Quick };
     let o2 = Options { tier, seed, replay: None, only: None, verif_dir: opt.verif_dir.clone(), out_dir: opt.out_dir.clone(), write_evidence: false };
-    match rerun_case(&spec, &check, &v["case"], &o2) {
+    let hist: Vec<Value> = v["thread_history"].as_array().cloned().unwrap_or_default();
+    let res = if hist.is_empty() { rerun_case(&spec, &check, &v["case"], &o2) } else { rerun_with_history(&spec, &check, &hist, &v["case"], &o2) };
+    match res {
       Err(e) => {
         eprintln!("machinery error: {}", e);
         return 2;
@@ -418,7 +457,7 @@ pub fn run_property(spec: PropSpec, opt: Options) -> i32 {
   }
 
   // ---- violations: group by key, classify against known findings, confirm by replay
-  let mut by_key: BTreeMap<String, Vec<&(String, String, Value, &'static str, Value)>> = BTreeMap::new();
+  let mut by_key: BTreeMap<String, Vec<&(String, String, Value, &'static str, Value, std::sync::Arc<Vec<Value>>)>> = BTreeMap::new();
   for v in &a.viols {
     by_key.entry(v.0.clone()).or_default().push(v);
   }
@@ -432,11 +471,19 @@ pub fn run_property(spec: PropSpec, opt: Options) -> i32 {
     let is_known = known.iter().find(|f| &f.key == key);
     // determinism: the recorded case must reproduce the same violation key
     let o2 = Options { tier: opt.tier, seed: opt.seed, replay: None, only: None, verif_dir: opt.verif_dir.clone(), out_dir: opt.out_dir.clone(), write_evidence: false };
+    let mut needs_history = false;
     match rerun_case(&spec, first.3, &first.4, &o2) {
       Ok(keys) if keys.iter().any(|(k, _)| k == key) => {}
       Ok(_) => {
-        eprintln!("machinery error: violation [{}] of {} did not reproduce on replay (uncaptured nondeterminism); case {}", key, spec.id, first.4);
-        return 2;
+        // not reproducible in isolation: state carried between calls by the code under test? replay the
+        // cases that preceded it on its worker thread, on a fresh thread
+        match rerun_with_history(&spec, first.3, &first.5, &first.4, &o2) {
+          Ok(keys) if keys.iter().any(|(k, _)| k == key) => needs_history = true,
+          _ => {
+            eprintln!("machinery error: violation [{}] of {} reproduced neither in isolation nor after the {} cases that preceded it on its worker thread (process-wide state or uncaptured nondeterminism); case {}", key, spec.id, first.5.len(), first.4);
+            return 2;
+          }
+        }
       }
       Err(e) => {
         eprintln!("machinery error: {}", e);
@@ -451,6 +498,8 @@ pub fn run_property(spec: PropSpec, opt: Options) -> i32 {
       "key": key, "what": first.1, "detail": first.2, "case": first.4,
       "occurrences_in_run": vs.len(),
       "replay_cmd": format!("./check {} --replay {}", spec.id, path),
+      "thread_history": if needs_history { json!(first.5.as_ref()) } else { json!([]) },
+      "note": if needs_history { "reproduces only after the listed earlier cases on the same thread: the code under test carries state between calls" } else { "reproduces in isolation" },
     });
     let _ = std::fs::write(&path, serde_json::to_string_pretty(&rec).unwrap());
     if let Some(kf) = is_known {
@@ -717,9 +766,13 @@ where
       break;
     }
     let base = cx.scratch();
+    if base.should_stop() {
+      cx.note("exploration stopped early: enough counterexamples recorded");
+      break;
+    }
     let results = par_map(&frontier, |_, (k, s)| {
       let mut sc = base.scratch();
-      let succ = expand(k, s, &mut sc);
+      let succ = if sc.should_stop() { vec![] } else { expand(k, s, &mut sc) };
       (succ, sc)
     });
     let mut next: HashMap<K, S> = HashMap::new();
@@ -742,7 +795,9 @@ where
     let base = cx.scratch();
     let mres = par_map(&dup, |_, (k, s)| {
       let mut sc = base.scratch();
-      merge(k, &next[k], s, &mut sc);
+      if !sc.should_stop() {
+        merge(k, &next[k], s, &mut sc);
+      }
       sc
     });
     stats.merges += dup.len() as u64;
@@ -762,7 +817,9 @@ where
     let base = cx.scratch();
     let vres = par_map(&frontier, |_, (k, s)| {
       let mut sc = base.scratch();
-      visit(k, s, &mut sc);
+      if !sc.should_stop() {
+        visit(k, s, &mut sc);
+      }
       sc
     });
     for sc in vres {
